@@ -61,7 +61,7 @@ def plan(case, rseed, force=None):
     rng.shuffle(letters)                       # names must not follow the numbering of the model
     tag = case.get("tag", "K")
     base = {c: f"{tag}_{letters[c - 1]}" for c in nodes}
-    kinds, edges, names = {}, {}, {}
+    kinds, edges, names, derive = {}, {}, {}, {}
     scal = SCALARS[:]
     rng.shuffle(scal)
     ref_targets = set()
@@ -108,6 +108,11 @@ def plan(case, rseed, force=None):
         elif k == "array":
             edges[c] = [(D[0], "item")]
             names[c] = None                     # decided at creation (natural name unless it would clash)
+            # a NAMED array class DERIVED from another array class of the graph with the same item type (`class Polygon(Points): pass`):
+            # same dependencies, an API of its own, and it inherits every class attribute of its base
+            sib = [b for b in kinds if b != c and kinds[b] == "array" and edges[b][0][0] == D[0]]
+            if sib and rng.random() < 0.6:
+                derive[c] = rng.choice(sib)
         elif k == "ref":
             edges[c] = [(D[0], "ref")]
             ref_targets.add(D[0])
@@ -117,7 +122,7 @@ def plan(case, rseed, force=None):
             nm = len(D) if rng.random() < 0.6 else rng.randint(1, len(D))
             edges[c] = [(t, "member" if x < nm else "declared") for x, t in enumerate(D)]
             names[c] = base[c]
-    return dict(kinds=kinds, edges=edges, names=names, order=order, nodes=nodes, base=base, rseed=rseed)
+    return dict(kinds=kinds, edges=edges, names=names, order=order, nodes=nodes, base=base, rseed=rseed, derive=derive)
 
 
 def build(case, pl):
@@ -171,7 +176,9 @@ def build(case, pl):
             order = tuple(range(len(shape)))
             it = obj[t]
             nat = xo.Array.mk_arrayclass(it, tuple(slice(None) if s is None else s for s in shape))
-            if kinds[t] == "scalar" or nat.__name__ in used_names:
+            if pl.get("derive", {}).get(c) in obj:
+                nat = MetaArray(base[c], (obj[pl["derive"][c]],), {})
+            elif kinds[t] == "scalar" or nat.__name__ in used_names:
                 # xobjects names array classes after shape and item type only; sort_classes identifies classes by name, so a second
                 # array class of the same item type (or one over a scalar, shared between cases) gets a name of its own
                 nat = MetaArray(base[c], (xo.Array,), {"_itemtype": it, "_shape": nat._shape, "_order": nat._order})
@@ -223,7 +230,7 @@ def build(case, pl):
 def node_desc(case, pl, c):
     if c not in pl["kinds"]:
         return "foreign-object"
-    k = pl["kinds"][c]
+    k = pl["kinds"][c] + ("-derived-from-array-class" if c in pl.get("derive", {}) else "")
     return k + ("-without-dependencies" if not case["deps"][c - 1] and k not in ("scalar",) else "")
 
 
